@@ -3,6 +3,7 @@
 #pragma once
 #include <cstdint>
 #include <cstring>
+#include <cstdlib>
 #include <map>
 #include <unordered_map>
 #include <set>
@@ -99,7 +100,7 @@ struct Terms {
     if (x.op == OP_C) { s << x.k; if (x.bytes != 4) s << ":i" << x.bytes * 8; return s.str(); }
     if (x.op == OP_CF) { s << cfval(id) << (x.bytes == 4 ? "f" : ""); return s.str(); }
     if (x.op == OP_RATC) { s << x.k << "/" << x.bytes; return s.str(); }
-    if (depth > 7) return "...";
+    static int maxd = getenv("IRFLOW_STRDEPTH") ? atoi(getenv("IRFLOW_STRDEPTH")) : 7; if (depth > maxd) return "...";
     s << OPS.name(x.op);
     if (x.op == OP_PIECE) s << "<" << x.k << "," << x.bytes << ">";
     s << "(";
